@@ -70,6 +70,9 @@ META["rule"] += (
 META["rule"] += (
     " " + 'Added after the seventh round: plots / networks of 1025 and 1100 states built twice from differently seeded generator states; Rainfall helpers and Data.rescale in the argument ledger.')
 
+META["rule"] += (
+    " " + "Added after the eighth round: family 'histories' (the same state changes with and without queries in between, three objects); 30 % of the sequences hand their matrices over column-major or as a window of a larger buffer; the shared case has a second record of the same or another length and the two-layer constructor.")
+
 CULPRITS = {
     "Surrogates": [
         ("white_noise_surrogates", lambda o: o.white_noise_surrogates()),
@@ -181,6 +184,14 @@ def run(ctx):
         with ctx.guard(240):
             sequence_case(ctx, sub, r, cid, call, agree, SC, S, snapshot,
                           brief, is_spectral, spectral_defined)
+    # the same state changes with and without queries in between
+    for j in range(60 if ctx.thorough else 8):
+        cid = f"hist:{ctx.shard}:{j}"
+        if ctx.want(cid):
+            rr = ctx.rng("hist", ctx.shard, j)
+            sub = subs[int(rr.integers(len(subs)))]
+            with ctx.guard(240):
+                history_case(ctx, sub, rr, cid, call, agree, brief)
     if ctx.shard % 4 == 0 or ctx.only_case:
         for j in range(12 if ctx.thorough else 2):
             cid = f"shared:{ctx.shard}:{j}"
@@ -271,6 +282,15 @@ def sequence_case(ctx, sub, r, cid, call, agree, SC, S, snapshot, brief,
     try:
         with ctx.quiet():
             m = sub.gen(r)
+            # (the caller may hold its matrices in another memory layout:
+            #  column-major, or as a window of a larger buffer)
+            if r.random() < 0.3:
+                from pvm.gen.held import as_held
+                for key in list(m):
+                    if isinstance(m[key], np.ndarray) and m[key].ndim == 2 \
+                            and m[key].dtype.kind in "fiub":
+                        m[key], tag = as_held(r, m[key], ("f", "view"))
+                        ctx.count("caller_layout:" + tag)
             inputs = arrays_of(m)
             ledger_in = snap_arrays(inputs)
             obj = sub.build(m)
@@ -458,6 +478,70 @@ def sequence_case(ctx, sub, r, cid, call, agree, SC, S, snapshot, brief,
                     "inputs": list(inputs)})
 
 
+def history_case(ctx, sub, r, cid, call, agree, brief):
+    """What an object answers depends on its state, not on what it was asked
+    on the way there: one object is taken through a few state changes and is
+    asked things in between, two others go through the same changes
+    unasked; in the end all three answer everything alike."""
+    try:
+        muts = list(sub.mutators())
+    except NotImplementedError:
+        muts = []
+    if not muts:
+        ctx.count("history_no_state_changes:" + sub.name)
+        return
+    try:
+        with ctx.quiet():
+            m = sub.gen(r)
+            objs = [sub.build(m) for _ in range(3)]
+    except Exception as e:  # noqa
+        ctx.count(f"initial_build_raises:{sub.name}:{type(e).__name__}")
+        return
+    asked, hist = [], []
+    for step in range(int(r.integers(2, 5))):
+        allq = sub.queries(objs[0], m)
+        for i in r.permutation(len(allq))[:int(r.integers(1, 6))]:
+            asked.append(allq[i][0])
+            call(allq[i][1], objs[0])
+            ctx.evals()
+        name, fn = muts[int(r.integers(len(muts)))]
+        sd = int(r.integers(1 << 30))
+        outs = []
+        for o in objs:
+            with ctx.quiet(), warnings.catch_warnings():
+                warnings.simplefilter("ignore")
+                outs.append(ctx.call(fn, o, m, np.random.default_rng(sd)))
+        hist.append(name)
+        if not all(ok for ok, _ in outs):
+            if len({ok for ok, _ in outs}) > 1:
+                ctx.violation(f"{sub.name}:{name}:accepted-or-not-depends-"
+                              "on-earlier-queries",
+                              {"class": sub.name, "asked": asked,
+                               "history": hist}, cid)
+            ctx.count("history_ended_by_refusal")
+            return
+        m = outs[0][1]
+    ctx.count("histories_with_and_without_queries")
+    ctx.count("history:" + sub.name)
+    for label, q in sub.queries(objs[0], m):
+        a, b, b2 = (call(q, o) for o in objs)
+        ctx.evals()
+        c0, e0 = agree(b, b2)
+        if not c0 or not e0:
+            ctx.count("history_query_not_deterministic")
+            continue
+        ctx.count("history_answers_compared")
+        ctx.nontrivial((sub.name, "hist", label, tuple(hist)))
+        c, e = agree(a, b)
+        if c and not e:
+            ctx.violation(
+                f"{sub.name}:{label}:depends-on-queries-asked-before-"
+                f"{hist[-1]}",
+                {"class": sub.name, "asked_in_between": asked,
+                 "history": hist, "asked": brief(a[1]),
+                 "unasked": brief(b[1])}, cid)
+
+
 def shared_case(ctx, r, cid, same, brief):
     """One ClimateData / GeoGrid shared by several derived networks."""
     from pyunicorn import climate as C
@@ -487,13 +571,38 @@ def shared_case(ctx, r, cid, same, brief):
                ("HilbertClimateNetwork", dict()),
                ("RainfallClimateNetwork", dict(scale_fac=1.0, offset=0.0)),
                ("TsonisClimateNetwork", dict(winter_only=True))]
+    # a second record for the two-layer networks: of the same length or
+    # not (the constructor then declines, both records stay what they are)
+    T2 = T if r.random() < 0.5 else int(r.choice([24, 30, 48]))
+    n2 = int(r.integers(3, 6))
+    obs2 = np.round(r.normal(size=(T2, n2)) * 32) / 32
+    cd2 = climate_data(obs2, np.round(r.uniform(-70, 70, n2)),
+                       np.round(r.uniform(-170, 170, n2)), cycle=12)
+    probes.update({
+        "second.observable": lambda: cd2.observable(),
+        "second.anomaly": lambda: cd2.anomaly(),
+        "second.window": lambda: np.array(
+            [v for _, v in sorted(cd2.window().items())], dtype=float),
+        "window": lambda: np.array(
+            [v for _, v in sorted(cd.window().items())], dtype=float),
+        "second.grid.lat_sequence": lambda: cd2.grid.lat_sequence(),
+    })
+    with ctx.quiet():
+        snaps = {k: np.array(f(), copy=True) for k, f in probes.items()}
+    classes.append(("CoupledTsonisClimateNetwork", dict(_second=True)))
+    if T2 != T:
+        ctx.count("shared_two_layer_unequal_lengths")
     order = r.permutation(len(classes))
     for i in order:
         cname, kw = classes[i]
+        kw = dict(kw)
+        args = (cd, cd2) if kw.pop("_second", False) else (cd,)
         with warnings.catch_warnings():
             warnings.simplefilter("ignore")
-            ok, net = ctx.call(getattr(C, cname), cd, threshold=0.3,
-                               silence_level=3, **kw)
+            with ctx.quiet():
+                ok, net = ctx.call(getattr(C, cname), *args, threshold=0.3,
+                                   silence_level=3, **kw)
+            ok = ok and hasattr(net, "sp_A")
             if ok:
                 for m in ("degree", "nsi_degree", "link_density_function",
                           "correlation_distance",
